@@ -182,7 +182,9 @@ inductive Err where
 def findRecipe (m : Module) (n : String) : Option Recipe := m.recipes.find? (fun r => r.name = n)
 
 def assignGraph (m : Module) : Dfs.Graph :=
-  { succ := fun n => (m.assigns.lookup n).map (fun e => walk [e]), skip := isConst }
+  { succ := fun n => (m.assigns.lookup n).map (fun e => walk [e]),
+    -- a reference is to the built-in constant only when no assignment has that name
+    skip := fun x => isConst x && (m.assigns.lookup x).isNone }
 
 def recipeGraph (m : Module) : Dfs.Graph :=
   { succ := fun n => (findRecipe m n).map (fun r => r.deps.map Dep.target), skip := fun _ => false }
